@@ -45,7 +45,7 @@ func legalName(s string) bool {
 }
 
 var hostileFragments = []string{`"`, `\`, `\"`, "\n", "\r", "\t", "\b", "\f", "\x00", "\x01", "\x1f", "\x7f", "/", "</script>", " ", " ", "\u0080", "é", "日本", "\U0001F600",
-	"\xff", "\xfe", "\xc0\xaf", "\xe2\x82", "\xf0\x9f", "\xed\xa0\x80", "\xed\xbf\xbf", "\xc3", "\x80", "\xbf", "a", "b", "z", " ", "0", "{", "}", "[", "]", ":", ",", "null", "true", "\\u0041", "\\n"}
+	"\uFFFD", "\xff", "\xfe", "\xc0\xaf", "\xe2\x82", "\xf0\x9f", "\xed\xa0\x80", "\xed\xbf\xbf", "\xc3", "\x80", "\xbf", "a", "b", "z", " ", "0", "{", "}", "[", "]", ":", ",", "null", "true", "\\u0041", "\\n"}
 
 func hostileString(rng *rand.Rand, utf8Only bool) string {
 	for {
@@ -72,7 +72,12 @@ func hostileString(rng *rand.Rand, utf8Only bool) string {
 func jsonFloat(rng *rand.Rand) float64 {
 	for {
 		var f float64
-		switch rng.Intn(6) {
+		switch rng.Intn(7) {
+		case 6:
+			f = math.Ldexp(1, rng.Intn(2098)-1074) // exact powers of two have an asymmetric rounding interval
+			if rng.Intn(3) == 0 {
+				f = math.Nextafter(f, math.Inf(rng.Intn(2)*2-1))
+			}
 		case 0:
 			f = model.FloatPool[rng.Intn(len(model.FloatPool))]
 		case 1:
